@@ -121,7 +121,7 @@ def stepChain (pr : ChainProg) (toks : List String) : ChainProg × String :=
         | "tx" :: mode :: rest =>
           (parseMsg rest).map fun m =>
             let t : Tx := { msg := m, signer := (intOf rest "signer").toNat, pk := kvOf rest "pk" == "1", fee := intOf rest "fee",
-                            memo := (intOf rest "memo").toNat, mutn := kvOf rest "mut" }
+                            memo := (intOf rest "memo").toNat, mutn := kvOf rest "mut", id := " ".intercalate rest }
             .tx (if mode == "check" then Mode.check else if mode == "simulate" then Mode.simulate else Mode.deliver) t
         | _ => none
       match op? with
